@@ -55,7 +55,7 @@ import time
 from typing import Any, Dict, List, Optional, Tuple
 
 from mc import aio
-from mc.core import digest
+from mc.core import HarnessError, digest
 from mc.explore import ExecResult, V, _blank_result, bfs, explore_item
 from mc.harness import default_observation, describe, exc_site, generic_violations, run_world, std_execute
 from mc.x_c04_gen import (ANSWERED_AT_ONCE, APPS, CORPUS, H1_GET, H2_GET, SESSIONS, ClientModel, boundaries,
@@ -666,12 +666,18 @@ def _account(res: dict, r: ExecResult, params: Any, case: Any) -> None:
 def explore_item_custom(params: tuple, tier: str, deadline: float) -> dict:
     kind = params[0]
     if kind == "odd":
+        last: List[Any] = []
+
         def execute_fresh(p: Any, prefix: List[int]) -> ExecResult:
             r = execute(p, prefix)
             r.violations = _fresh(r.violations)
+            last[:] = [list(prefix), [(pt.kind, pt.n, pt.choice) for pt in r.trace]]
             return r
 
-        return explore_item(execute_fresh, params, bounds(tier, params), deadline)
+        try:
+            return explore_item(execute_fresh, params, bounds(tier, params), deadline)
+        except HarnessError as e:
+            raise HarnessError(f"{e}; prefix={last[0] if last else None} trace={last[1] if last else None}")
     if kind == "gram":
         _, engine, depth, root, gtier = params
         count = [0]
